@@ -77,4 +77,14 @@ CHECKS.update({
   "text": "norm-argument prove->verify for all 49 shapes {1..64}^2 (quick skips about half of the two largest) with random / zero / boundary vectors, prover with and without scratch, verifier with 8 scratch sizes (fail closed, never a wrong accept), verification compared with a round-by-round folding model on honest proofs and on bit flips, sign bytes, infinity encodings, scalars >= order incl. n+order / l+order for prover-chosen small n, l, length / size / generator-count / rho / prefix / commitment edits; generator lists 0..256 compared with the DRBG+SvdW model (prefix property), serialize/parse round trips and malformed lists with malloc/free balance.",
   "note": "Trusted: ref/bppp.py, ref/zkp.py; shim wrappers around the internal prove/verify routines mirror tests_impl.h."},
 })
+CHECKS.update({
+ "C05": {
+  "technique": "runtime monitoring: 4 (quick) / 10 (thorough) sanitizer builds of the configuration matrix with VERIFY magnitude assertions + big-integer / group-law / hashlib reference oracle on internal routines",
+  "text": "field (every magnitude each routine permits, two near-maximal limb materialisations), scalar, int128 (native and struct emulation), group (P+P, P+(-P), infinity, beta family, Jacobian rescalings), ecmult / ecmult_gen (blinded contexts) / ecmult_const / xonly / multi (Strauss, Pippenger, simple; scratch sizes; batches 0..300), SHA-256 for every length 0..300 and sampled to 2^20 under random chunkings, HMAC, RFC 6979 DRBG, all 18 precomputed tagged midstates; ~49k records quick over {int128 native+asm, int64, int128 struct, no asm} x several window / comb sizes, all compared with the same Python models (hence bit-identical across builds).",
+  "note": "Trusted: Python integer arithmetic, hashlib/hmac, ref/ec.py. 32-bit targets, ARM assembly and window sizes > 15 cannot be built here."},
+ "C20": {
+  "technique": "runtime monitoring: golden-output replay over context histories (sanitizer build), ThreadSanitizer on 2..16 threads sharing one context with overlap accounting, writable-segment hashing of libsecp256k1.so, allocation counters, static-context runs in child processes",
+  "text": "a ~150-call probe suite covering every API family is replayed after every step of random context histories (create / preallocated create / clone / preallocated clone / randomize / replace, corrupt or reset the SHA-256 compression function / destroy) and must equal the fresh-context outputs; every probe also runs on secp256k1_context_static (child process) and on a byte copy, judged by the header's own '(not secp256k1_context_static)' markers; the const-context probes run on 2, 4, 8, 16 threads x 4 context preparations x asm/no-asm TSan builds (150k overlapping call pairs observed per quick run); the .so's writable PT_LOAD segment is compared around 11 checkpoints incl. an 8-thread batch, under TSan as well; create/clone <= 1 allocation, preallocated variants 0.",
+  "note": "Trusted: TSan, dl_iterate_phdr segment discovery, the probe suite's coverage of API families. Interleavings that did not occur are not covered."},
+})
 NOT_APPLICABLE = {}
